@@ -30,9 +30,20 @@ const KAT_V2_PUBLIC: &str = "v2.public.eyJkYXRhIjoic21va2Ug8J-mgCBtZXNzYWdlIGNyb
 #[allow(dead_code)]
 const KAT_V4_PUBLIC: &str = "v4.public.eyJkYXRhIjoic21va2Ug8J-mgCBtZXNzYWdlIGNyb3NzaW5nIG9uZSBibG9jayAuLi4uLi4uLi4uLi4uLi4uLi4uLi4uLi4uLi4uLi4uLi4uLi4uLi4uIn2VqUgIe5Kovn8tuBPgrh267_pgwG7aX5Rzg6sGVyZtC2SRoi-_e3w5Q7k7oZkLYCncGUa9u5h8VBdOHcNIPA4C.eyJraWQiOiJzbW9rZSJ9";
 
+/// 0 = first pass (protocols in feature order, on the main thread): the only one that reports `OK` lines;
+/// later passes repeat every round trip in the opposite order and on another thread - what worked once must keep working
+/// whatever ran before it in this process.
+static PASS: std::sync::atomic::AtomicU32 = std::sync::atomic::AtomicU32::new(0);
+
 fn fail(what: &str) -> ! {
-  println!("FAIL {}", what);
+  println!("FAIL (pass {}) {}", PASS.load(std::sync::atomic::Ordering::SeqCst), what);
   std::process::exit(1)
+}
+
+fn say(line: &str) {
+  if PASS.load(std::sync::atomic::Ordering::SeqCst) == 0 {
+    println!("{}", line);
+  }
 }
 
 macro_rules! ok {
@@ -40,6 +51,20 @@ macro_rules! ok {
     match $e {
       Ok(v) => v,
       Err(e) => fail(&format!("{}: {:?}", $what, e)),
+    }
+  };
+}
+
+// what client code ordinarily does with keys - written so that it relies on there being ONE obvious reading of each call;
+// a feature that adds a second `AsRef` / `From` / `Deref` path to these types breaks such code (monotonicity)
+macro_rules! downstream_idioms {
+  ($key:ident, $raw:ident) => {
+    let key_len = $key.as_ref().len();
+    let key_copy = $key.as_ref().to_vec();
+    let raw_len = $raw.as_ref().len();
+    let first = $raw.as_ref().iter().next().copied();
+    if key_len != 32 || key_copy.len() != 32 || raw_len != 32 || first.is_none() {
+      fail("key bytes are not what was put in");
     }
   };
 }
@@ -86,6 +111,7 @@ mod core_layer {
         local_keys!($V, key);
         let n = ok!(Key::<32>::try_from(NONCE), "nonce");
         let nonce = PasetoNonce::<$V, Local>::from(&n);
+        downstream_idioms!(key, n);
         let token = ok!(
           Paseto::<$V, Local>::builder().set_payload(Payload::from(MSG)).set_footer(Footer::from(FOOT)).try_encrypt(&key, &nonce),
           concat!($label, " core encrypt")
@@ -101,7 +127,7 @@ mod core_layer {
         if back != MSG {
           fail(concat!($label, " core: known-answer token decrypts to something else"));
         }
-        println!(concat!("OK ", $label, " core"));
+        say(concat!("OK ", $label, " core"));
       }
     };
   }
@@ -112,6 +138,7 @@ mod core_layer {
         local_keys!($V, key);
         let n = ok!(Key::<32>::try_from(NONCE), "nonce");
         let nonce = PasetoNonce::<$V, Local>::from(&n);
+        downstream_idioms!(key, n);
         let token = ok!(
           Paseto::<$V, Local>::builder()
             .set_payload(Payload::from(MSG))
@@ -137,7 +164,7 @@ mod core_layer {
         if back != MSG {
           fail(concat!($label, " core: known-answer token decrypts to something else"));
         }
-        println!(concat!("OK ", $label, " core"));
+        say(concat!("OK ", $label, " core"));
       }
     };
   }
@@ -157,7 +184,7 @@ mod core_layer {
     if back != MSG || !token.starts_with("v1.public.") {
       fail("v1.public core round trip mismatch");
     }
-    println!("OK v1.public core");
+    say("OK v1.public core");
   }
   #[cfg(feature = "use_v2_public")]
   pub fn v2_public() {
@@ -173,7 +200,7 @@ mod core_layer {
     if token != KAT_V2_PUBLIC {
       fail(&format!("v2.public core: token differs from the specification's known answer (Ed25519 signatures are deterministic): {}", token));
     }
-    println!("OK v2.public core");
+    say("OK v2.public core");
   }
   #[cfg(feature = "use_v3_public")]
   pub fn v3_public() {
@@ -193,7 +220,7 @@ mod core_layer {
     if back != MSG || !token.starts_with("v3.public.") {
       fail("v3.public core round trip mismatch");
     }
-    println!("OK v3.public core");
+    say("OK v3.public core");
   }
   #[cfg(feature = "use_v4_public")]
   pub fn v4_public() {
@@ -216,7 +243,7 @@ mod core_layer {
     if token != KAT_V4_PUBLIC {
       fail(&format!("v4.public core: token differs from the specification's known answer (Ed25519 signatures are deterministic): {}", token));
     }
-    println!("OK v4.public core");
+    say("OK v4.public core");
   }
 }
 
@@ -241,7 +268,7 @@ mod generic_layer {
       if json["sub"] != "smoke subject" || json["answer"] != 42 || !token.starts_with(concat!($label, ".")) {
         fail(concat!($label, " generic round trip mismatch"));
       }
-      println!(concat!("OK ", $label, " generic"));
+      say(concat!("OK ", $label, " generic"));
     }};
     (@assert_b $b:ident, true) => { $b.set_implicit_assertion(ImplicitAssertion::from(ASSERT)); };
     (@assert_b $b:ident, false) => {};
@@ -290,7 +317,7 @@ mod prelude_layer {
       if json["aud"] != "smoke audience" || json["answer"] != 42 || !json["exp"].is_string() || !token.starts_with(concat!($label, ".")) {
         fail(concat!($label, " prelude round trip mismatch"));
       }
-      println!(concat!("OK ", $label, " prelude"));
+      say(concat!("OK ", $label, " prelude"));
     }};
     (@assert $b:ident, true) => { $b.set_implicit_assertion(ImplicitAssertion::from(ASSERT)); };
     (@assert $b:ident, false) => {};
@@ -335,9 +362,52 @@ macro_rules! run_all {
   };
 }
 
-fn main() {
+macro_rules! run_all_reversed {
+  ($layer:ident, $layer_feat:literal) => {
+    #[cfg(all(feature = $layer_feat, feature = "use_v4_public"))]
+    $layer::v4_public();
+    #[cfg(all(feature = $layer_feat, feature = "use_v3_public"))]
+    $layer::v3_public();
+    #[cfg(all(feature = $layer_feat, feature = "use_v2_public"))]
+    $layer::v2_public();
+    #[cfg(all(feature = $layer_feat, feature = "use_v1_public"))]
+    $layer::v1_public();
+    #[cfg(all(feature = $layer_feat, feature = "use_v4_local"))]
+    $layer::v4_local();
+    #[cfg(all(feature = $layer_feat, feature = "use_v3_local"))]
+    $layer::v3_local();
+    #[cfg(all(feature = $layer_feat, feature = "use_v2_local"))]
+    $layer::v2_local();
+    #[cfg(all(feature = $layer_feat, feature = "use_v1_local"))]
+    $layer::v1_local();
+  };
+}
+
+fn forward() {
   run_all!(core_layer, "core");
   run_all!(generic_layer, "generic");
   run_all!(prelude_layer, "batteries_included");
+}
+fn backward() {
+  run_all_reversed!(prelude_layer, "batteries_included");
+  run_all_reversed!(generic_layer, "generic");
+  run_all_reversed!(core_layer, "core");
+}
+
+fn main() {
+  forward();
+  PASS.store(1, std::sync::atomic::Ordering::SeqCst);
+  backward();
+  PASS.store(2, std::sync::atomic::Ordering::SeqCst);
+  forward();
+  // a fresh thread that meets the protocols in the opposite order first
+  PASS.store(3, std::sync::atomic::Ordering::SeqCst);
+  let t = std::thread::spawn(|| {
+    backward();
+    forward();
+  });
+  if t.join().is_err() {
+    fail("a round trip panicked on a second thread");
+  }
   println!("DONE");
 }
